@@ -48,6 +48,20 @@ def negations(fi):
                 gs = dominating_guards(n)
                 g = " and ".join(sorted((("" if pol else "not ") + src(t)) for t, pol in gs if "None" not in src(t) and " in " not in src(t) and "use_hessian" not in src(t)))
                 out.append((n.targets[0].id, g, n))
+            # N = -E if T else E   /   N = E if T else -E
+            if isinstance(v, ast.IfExp):
+                a, b = v.body, v.orelse
+                na = a.operand if isinstance(a, ast.UnaryOp) and isinstance(a.op, ast.USub) else None
+                nb = b.operand if isinstance(b, ast.UnaryOp) and isinstance(b.op, ast.USub) else None
+                pol = None
+                if na is not None and src(na) == src(b):
+                    pol = True
+                elif nb is not None and src(nb) == src(a):
+                    pol = False
+                if pol is not None:
+                    gs = [(v.test, pol)] + dominating_guards(n)
+                    g = " and ".join(sorted((("" if p_ else "not ") + src(t)) for t, p_ in gs if "None" not in src(t) and " in " not in src(t) and "use_hessian" not in src(t)))
+                    out.append((n.targets[0].id, g, n))
     return out
 
 
@@ -80,7 +94,7 @@ def check(prog, rep):
                 # F9: linprog's fun is c @ x; the cost vector carries no constant term
                 const_src = any(
                     (isinstance(n, ast.Call) and "constant" in (dotted(n.func) or "").lower())
-                    or (isinstance(n, ast.Attribute) and isinstance(n.value, ast.Name) and n.attr not in LPDATA_MATRIX_FIELDS and _is_lpdata(n.value.id, assigns))
+                    or (isinstance(n, ast.Attribute) and isinstance(n.value, ast.Name) and n.attr not in LPDATA_MATRIX_FIELDS and _is_lpdata(n.value.id, assigns, fi, prog))
                     for e in fl for n in ast.walk(e)
                 )
                 ok = reevaluates or (uses_fun and const_src)
@@ -102,6 +116,9 @@ def check(prog, rep):
             vv = [k.value for k in sc.keywords if k.arg == "values"]
             if vv:
                 ok, why = _values_aligned(prog, fi, vv[0], assigns, res, call, backend)
+                if ok is None:
+                    rep.undecided(f"{fi.name}: {why}")
+                    continue
                 rep.ob("R07.3", f"{fi.name}:values", ok, why, loc=f"{fi.module.rel}:{sc.lineno}", detail="aligned-with-backend-columns")
 
     # ------------------------------------------------------------------ R07.2
@@ -244,7 +261,7 @@ def _reported_term(prog, rep, fi, sc, ov, res, backend):
         t = src(n)
         if t == f"{res}.fun":
             return FUN
-        if isinstance(n, ast.Attribute) and n.attr not in LPDATA_MATRIX_FIELDS and isinstance(n.value, ast.Name) and _is_lpdata(n.value.id, local_assignments(fi.node)):
+        if isinstance(n, ast.Attribute) and n.attr not in LPDATA_MATRIX_FIELDS and isinstance(n.value, ast.Name) and _is_lpdata(n.value.id, local_assignments(fi.node), fi, prog):
             return C0
         if isinstance(n, ast.Call) and "constant" in (dotted(n.func) or "").lower():
             return C0
@@ -306,11 +323,27 @@ def _reported_term(prog, rep, fi, sc, ov, res, backend):
                loc=f"{fi.module.rel}:{sc.lineno}", detail=f"value-term:{world}")
 
 
-def _is_lpdata(name, assigns):
+_LPF: dict = {}
+
+
+def _lpdata_fields(prog):
+    if "f" not in _LPF:
+        C = prog.cls("LPData")
+        _LPF["f"] = {st.target.id for st in C.node.body if isinstance(st, ast.AnnAssign) and isinstance(st.target, ast.Name)}
+    return _LPF["f"]
+
+
+def _is_lpdata(name, assigns, fi=None, prog=None):
+    """The local holds the extracted LP data: it is bound from the cache / the extractor, or (structural typing) the
+    attributes read on it in this function are LPData fields, at least two different ones."""
     for v in assigns.get(name, []):
         s = src(v) if isinstance(v, ast.AST) else ""
         if "_lp_cache" in s or "extract(" in s:
             return True
+    if fi is not None and prog is not None:
+        attrs = {n.attr for n in walk_local(fi.node) if isinstance(n, ast.Attribute) and isinstance(n.value, ast.Name) and n.value.id == name}
+        fields = _lpdata_fields(prog)
+        return len(attrs) >= 2 and attrs <= fields
     return False
 
 
@@ -355,7 +388,15 @@ def _values_aligned(prog, fi, vexpr, assigns, res, call, backend):
                     if isinstance(st, ast.Assign) and isinstance(st.targets[0], ast.Subscript) and src(st.targets[0].value) == vexpr.id:
                         ok = src(st.targets[0].slice) == v and f"{res}.x[{i}]" in src(st.value) and src(n.iter.args[0]).endswith(".variables")
                         return ok, (f"values[name] = {res}.x[i] over enumerate({src(n.iter.args[0])})" if ok else f"values[{src(st.targets[0].slice)}] = {src(st.value)} over {src(n.iter.args[0])} does not line up")
-    return False, "construction of the values dictionary not recognised"
+        # or: values = {name: res.x[i] for i, name in enumerate(<lp data>.variables)}
+        comps = [v for v in assigns.get(vexpr.id, []) if isinstance(v, ast.DictComp)]
+        for comp in comps:
+            g = comp.generators[0]
+            if isinstance(g.iter, ast.Call) and dotted(g.iter.func) == "enumerate" and isinstance(g.target, ast.Tuple) and len(comp.generators) == 1 and not g.ifs:
+                i, v = [src(e) for e in g.target.elts]
+                ok = src(comp.key) == v and f"{res}.x[{i}]" in src(comp.value) and src(g.iter.args[0]).endswith(".variables")
+                return ok, (f"values[name] = {res}.x[i] over enumerate({src(g.iter.args[0])})" if ok else f"values are built as {{{src(comp.key)}: {src(comp.value)}}} over {src(g.iter.args[0])}: key / index / list do not line up")
+    return None, "construction of the values dictionary not recognised"
 
 
 def _flows_to_backend(fi, name):
